@@ -101,27 +101,13 @@ func main() {
 				continue
 			}
 			seen := map[string]bool{}
+			// every mention of a library function counts: calls, and function or method values handed on (backoff.reset)
 			ast.Inspect(fd.decl.Body, func(n ast.Node) bool {
-				call, ok := n.(*ast.CallExpr)
+				id, ok := n.(*ast.Ident)
 				if !ok {
 					return true
 				}
-				var obj types.Object
-				fun := ast.Unparen(call.Fun)
-				if ix, ok := fun.(*ast.IndexExpr); ok {
-					fun = ix.X
-				}
-				switch f := fun.(type) {
-				case *ast.Ident:
-					obj = fd.pkg.info.Uses[f]
-				case *ast.SelectorExpr:
-					if sel, ok := fd.pkg.info.Selections[f]; ok {
-						obj = sel.Obj()
-					} else {
-						obj = fd.pkg.info.Uses[f.Sel]
-					}
-				}
-				if fn, ok := obj.(*types.Func); ok {
+				if fn, ok := fd.pkg.info.Uses[id].(*types.Func); ok {
 					fn = fn.Origin()
 					if fn.Pkg() != nil && v.pkgByTypes[fn.Pkg()] != nil {
 						k := v.funcKey(fn)
